@@ -495,8 +495,18 @@ def standard_check(mod, tier, seed):
     rep.cov["model_impl_mismatches"] = len(mism)
     rep.cov["oracle_rejections"] = len(oracle_bad)
 
+    # property-specific extra phases (e.g. fresh-process comparison, probes); each returns violation dicts
+    extra_viol = []
+    if impl_ok and hasattr(mod, "extra"):
+        try:
+            extra_viol = mod.extra(rep, impl_exe, model_exe, rng, tier) or []
+        except BuildError as e:
+            broken.append(("extra", e.what + ": " + first_error(e.log)))
+
     # 5. verdicts
     reported = set()
+    for v in extra_viol[:3]:
+        rep.violation(v)
     for i, why, o in oracle_bad:
         k = known(lines[i])
         if k:
@@ -513,7 +523,7 @@ def standard_check(mod, tier, seed):
         k = known(lines[i])
         if k and k not in rep.known:
             rep.known.append(k)
-    if unexplained and not reported:
+    if unexplained and not reported and not extra_viol:
         i = unexplained[0]
         if hasattr(mod, "shrink"):
             try:
